@@ -194,7 +194,7 @@ func (d *ledgerDriver) cfgJSON() map[string]interface{} {
 		hold = []string{}
 	}
 	return map[string]interface{}{"sord": sord, "oord": oord, "aord": aord, "kind": kind, "deci": deci, "price": price, "pdec": pdec,
-		"registered": reg, "holdops": hold, "unbond": operatortypes.UnbondingExpiration, "hooked": d.lc.Path != "precompile", "path": d.lc.Path}
+		"registered": reg, "holdops": hold, "unbond": operatortypes.UnbondingExpiration, "hooked": true, "path": d.lc.Path}
 }
 
 // give every staker account a known native balance (model units * scale)
